@@ -74,7 +74,7 @@ def script_of(hist, rng, nmax=24, threads=(1, 2, 4), ienv=None, scale_for_equil=
             return 0, default_pad, default_padx
         return default_n, default_pad, default_padx
     lines = []
-    ps, rl, ms = ienv or (rng.choice([1, 2, 4, 8]), rng.choice([1, 2, 4]), rng.choice([2, 4, 8]))
+    ps, rl, ms = ienv or (rng.choice([1, 2, 4, 8]), rng.choice([1, 2, 3, 4, 6] if symmetric else [1, 2, 4]), rng.choice([2, 4, 8]))
     lines.append("ienv p1=%d p2=%d p3=%d" % (ps, rl, ms))
     if track:
         lines.append("track on=1")
@@ -99,11 +99,13 @@ def script_of(hist, rng, nmax=24, threads=(1, 2, 4), ienv=None, scale_for_equil=
                 ln += " zc=%d" % rng.randrange(0, 3)
             if symmetric:     # full diagonal, strictly diagonally dominant by rows and columns, ordering on A'+A
                 ln = ln.replace("fulldiag=0", "fulldiag=1")
-                ln = " ".join(t for t in ln.split() if not t.startswith("vstyle=") and not t.startswith("scale=")) + " vstyle=1 scale=none"
+                ln = " ".join(t for t in ln.split() if not t.startswith("vstyle=") and not t.startswith("scale=")) + " vstyle=%d scale=none" % rng.choice([1, 1, 4])
                 if gen == "arrow" or gen == "banded" or gen == "grid" or gen == "random":
                     pass
             lines.append(ln)
-            lines.append("permc order=%d" % (2 if symmetric else rng.choice([-1, 0, 1, 2, 3])))
+            # symmetric mode: the reserve is computed for whatever ordering the caller passes; minimum degree on A'+A mostly, the
+            # natural one as well (small grids in natural order give relaxed supernodes made of several Cholesky supernodes)
+            lines.append("permc order=%d" % (rng.choice([2, 2, -1]) if symmetric else rng.choice([-1, 0, 1, 2, 3])))
         elif c["call"] == "vals":
             lines.append("vals seed=%d" % rng.randrange(1, 10 ** 6))
         elif c["call"] == "gssv":
@@ -207,6 +209,8 @@ def diagnose(r):
         if r["lwmode"] == -1:
             chk("query info>n", r["info"] > r["n"]); chk("query estimate>0", r["needed"] > 0); chk("query X untouched", r["Xunch"] == 1)
             chk("query retains memory", r["live1"] == r["live0"])
+            if r.get("factver", 0) > 0:
+                chk("query clobbers existing factors / permutations", r["permunch"] == 1 and r["Lunch"] == 1)
         else:
             if r["fact"] == "FACTORED":
                 chk("FACTORED modified A", r["Aunch"] == 1); chk("FACTORED modified perms", r["permunch"] == 1)
